@@ -270,7 +270,8 @@ func checkGenericProtocol(r *Run) {
 	})
 	// Enter only under first-visit
 	checkEnterFirstVisit(r, fd, info, visitorCall)
-	r.Floor("C11-generic-stop-gates", 5)
+	// at least one Enter, one Visit and one Exit callback (the three Exit sites of today's code may be merged into one)
+	r.Floor("C11-generic-stop-gates", 3)
 }
 
 func b2i(b bool) int {
@@ -460,8 +461,7 @@ func checkEnterFirstVisit(r *Run, fd *ast.FuncDecl, info *types.Info, visitorCal
 			guarded := false
 			for i := len(stack) - 1; i >= 0; i-- {
 				if ifs, ok := stack[i].(*ast.IfStmt); ok {
-					txt := exprStringNoFset(ifs.Cond)
-					if txt == "isFirstVisit" || txt == "nextNode.IsFirstVisit()" {
+					if isFirstVisitTest(info, fd, ifs.Cond) {
 						// must be in the then-branch
 						if i+1 < len(stack) && stack[i+1] == ifs.Body {
 							guarded = true
@@ -494,4 +494,24 @@ func exprStringNoFset(e ast.Expr) string {
 		}
 	}
 	return ""
+}
+
+// isFirstVisitTest: the condition is a call of the cursor's IsFirstVisit method, or a local that holds the result of
+// one and is never assigned again.
+func isFirstVisitTest(info *types.Info, fd *ast.FuncDecl, cond ast.Expr) bool {
+	isCall := func(e ast.Expr) bool {
+		call, ok := ast.Unparen(e).(*ast.CallExpr)
+		if !ok || len(call.Args) != 0 {
+			return false
+		}
+		sel, ok := call.Fun.(*ast.SelectorExpr)
+		return ok && sel.Sel.Name == "IsFirstVisit"
+	}
+	if isCall(cond) {
+		return true
+	}
+	if _, ok := ast.Unparen(cond).(*ast.Ident); ok {
+		return isCall(resolveLocalCopy(info, fd.Body, cond))
+	}
+	return false
 }
